@@ -346,8 +346,10 @@ def perturb(rng, obj):
         if isinstance(o, float) and not done[0]:
             done[0] = True
             return o + d
+        if isinstance(o, tuple) and hasattr(o, '_fields'):
+            return type(o)(*[walk(v) for v in o])
         if type(o) not in (dict, list, tuple, set, frozenset):
-            return o          # container subclasses (OrderedDict, namedtuple, ...) are passed on as they are
+            return o          # other container subclasses (OrderedDict, deque, ...) are passed on as they are
         if isinstance(o, dict):
             return dict((k, walk(v)) for k, v in o.items())
         if isinstance(o, (list, tuple, set, frozenset)):
@@ -429,6 +431,8 @@ def oracle_round(obj, tol, deep, depth=0):
         return obj
     if isinstance(obj, dict):
         return dict((k, oracle_round(v, tol, True, depth + 1)) for k, v in obj.items())
+    if isinstance(obj, tuple) and hasattr(obj, '_fields'):
+        return type(obj)(*[oracle_round(v, tol, True, depth + 1) for v in obj])     # a namedtuple is a tuple
     if isinstance(obj, (list, tuple, set, frozenset)):
         return type(obj)(oracle_round(v, tol, True, depth + 1) for v in obj)
     return obj
